@@ -277,7 +277,9 @@ def search(ctx, broken, corr_failures):
 
 
 def explains(broken_item, found):
-    return bool(found)
+    """a broken obligation is explained only by a concrete failure that is not an already known finding"""
+    known, _ = vlib.load_findings()
+    return any(v.key not in known for v in found)
 
 
 def replay(ctx, data):
@@ -296,6 +298,27 @@ def replay(ctx, data):
 
 
 MANIFEST_ENTRY = {
-    "text": "TODO",
-    "note": "TODO",
+    "text": "Coq state machine of deepali's transform objects (Model/TransformState.v): heap of objects, mutable tensor cells, the "
+            "`params` attribute with Python's lookup order and torch.nn.Module.__setattr__ routing, the _parameters dict shared by shallow "
+            "copies, buffers p/u/v as aliases or snapshots of (content, grid, sign), update()/pre-hook, tensor(), disp(), data_, in-place "
+            "edit, reset_parameters, grid_ per class, condition_, inverse(link, update_buffers), link_/unlink_, clear_buffers, copy, "
+            "SequentialTransform; numeric evaluation abstract. Theorems (all closed under the global context, for arbitrary contents/"
+            "grids/conditions): C09_call_is_fresh -- in EVERY state, hence after every history, a call of a non-composite transform that "
+            "returns yields exactly the evaluation of the parameters (through links / the callable on the current condition), grid and "
+            "sign held at that moment; C09_disp_after_replace_partial -- tensor()/disp() right after data_/reset_parameters/condition_/"
+            "grid_ reflect the new state for every non-rigid model and parameter kind; C09_regrid_preserves_world_partial -- dense "
+            "grid_ installs the new grid and the re-expressed parameters; refutations (vm_compute witnesses, reproduced on the "
+            "implementation by the search): linear transform with callable parameters after condition_/reset_parameters, B-spline "
+            "transform with callable parameters after grid_, dense grid_ with a grid differing only in align_corners. Tie: (1) translator "
+            "unit TState (Python ast) regenerates the state-affecting skeleton of 37 methods; the model's configuration flags are computed "
+            "from it inside Coq and the whole skeleton is pinned (C09_skeleton_unchanged); (2) correspondence: random operation histories "
+            "(<= 12 ops quick, <= 40 thorough; 16 operation kinds, 5 transform classes + composites, 7 parameter kinds, 7 grids) run on "
+            "the real classes and on the model by vm_compute, outputs canonicalised to the parameter/grid version they were computed from "
+            "(constant vector fields), error kinds and buffer shapes compared exactly inside Coq, failing histories shrunk.",
+    "note": "Partial: composite calls (SequentialTransform) are covered by correspondence and implementation-side search only (no theorem: "
+            "member updates allocate tensors, the proof needs a reference-validity invariant not yet proved); regrid theorem assumes the "
+            "explicit well-formedness `slots_wf` (params stored in at most one of __dict__/_buffers) and covers dense models; B-spline "
+            "subdivision and smooth-field regridding are checked numerically by the search (world displacement preserved within 5%); "
+            "GenericSpatialTransform only through its SequentialTransform behaviour. Trusted: Coq kernel, vm_compute, the modelled Python/"
+            "torch object semantics (validated by the correspondence), harness canonicalisation on constant fields.",
 }
